@@ -57,6 +57,7 @@ class Relay:
         self.forwarded = {}     # token -> requests fully sent to the server
         self.applied = []       # (token, action, detail)
         self.stored_replies = []
+        self.anomalies = []     # (token, request seq, seq of what the server answered): the server sent something nobody asked for
         self.connections = 0
         self.stopping = False
         self.threads = []
@@ -151,6 +152,10 @@ class Relay:
                     rst(c)
                     return
                 self.applied.append((token, kind, act[1:] if len(act) > 1 else None))
+                if ph.seq != rh.seq:
+                    # request and reply travel in lock step through this relay: a reply with another sequence number is one the daemon sent
+                    # unasked earlier on this connection (e.g. in answer to a oneway request)
+                    self.anomalies.append((token, rh.seq, ph.seq))
                 try:
                     if kind == "deliver":
                         c.sendall(rep)
